@@ -65,6 +65,7 @@ def parseIdx (s : String) : Option (List Nat) := (s.splitOn ",").mapM String.toN
 def showLoad : LoadResult Nat → String
   | .ok n => s!"ok {n}"
   | .readError => "readError"
+  | .other => "other"
 
 def states (atomic : Bool) (old new : Bytes) : List Fs :=
   crashStates (Fs.init old) (if atomic then saveOpsAtomic new else saveOps new)
